@@ -472,3 +472,95 @@ func (sc *bscenario) runMapQuery(c *hx.Ctx, r *hx.Rng) {
 		c.Count("mapq:pruned")
 	}
 }
+
+// mapOne maps one plain statement over the named measurements with the real MapShards, emits the
+// `mapq` op and checks every stored row of those measurements that satisfies the condition
+// (violations get class `class`).
+func (sc *bscenario) mapOne(c *hx.Ctx, text string, names []string, class string) {
+	shim := &scenario{tags: sc.tags, key: sc.tags[:1], times: sc.times}
+	stmt, err := parseSelect(text)
+	if err != nil {
+		c.Count("skipped:mapq-parse")
+		return
+	}
+	setDBRP(stmt.Sources)
+	cond, tr, err := influxql.ConditionExpr(stmt.Condition, nil)
+	if err != nil {
+		c.Count("skipped:mapq-condition")
+		return
+	}
+	tmin, tmax := tr.MinTimeNano(), tr.MaxTimeNano()
+	var f feat
+	op := fmt.Sprintf("mapq %d %d %s %s", tmin, tmax, strings.Join(hexs(names), ","), modelCond(cond, &f))
+	csm := &coordinator.ClusterShardMapper{Logger: logger.NewLogger(1)}
+	csm.MetaClient = &rmeta{sc: sc}
+	consulted := map[string]map[uint64]bool{}
+	var merr error
+	perr := hx.Safe(func() {
+		sg, e := csm.MapShards(stmt, tr, query.SelectOptions{}, cond)
+		if e != nil {
+			merr = e
+			return
+		}
+		for src, byPt := range sg.(*coordinator.ClusterShardMapping).ShardMap {
+			if consulted[src.Measurement] == nil {
+				consulted[src.Measurement] = map[uint64]bool{}
+			}
+			for _, shs := range byPt {
+				for _, sh := range shs {
+					consulted[src.Measurement][sh.ID] = true
+				}
+			}
+		}
+	})
+	ans := ""
+	switch {
+	case perr != "":
+		ans = "err panic"
+	case merr != nil:
+		ans = "err " + merr.Error()
+	default:
+		var parts []string
+		for _, n := range names {
+			var ids []uint64
+			for id := range consulted[n] {
+				ids = append(ids, id)
+			}
+			sort.Slice(ids, func(i, j int) bool { return ids[i] < ids[j] })
+			var s []string
+			for _, id := range ids {
+				s = append(s, strconv.FormatUint(id, 10))
+			}
+			parts = append(parts, hx2(n)+"="+strings.Join(s, ","))
+		}
+		ans = "map " + strings.Join(parts, " ")
+	}
+	line := c.Emit(op, ans)
+	c.Count("op:mapq")
+	if perr != "" {
+		c.Violation(line, "panic", "MapShards panicked: "+perr+" "+text)
+		return
+	}
+	if merr != nil {
+		return
+	}
+	inSrc := map[string]bool{}
+	for _, n := range names {
+		inSrc[n] = true
+	}
+	for _, row := range sc.stored {
+		if !inSrc[row.mst] || row.t < tmin || row.t > tmax {
+			continue
+		}
+		sat, ok := shim.eval(cond, &point{t: row.t, tags: row.tags})
+		if !ok || !sat {
+			continue
+		}
+		if !consulted[row.mst][row.sid] {
+			c.Violation(line, class, fmt.Sprintf(
+				"row (measurement %s, t=%d, tags=%v) stored in shard %d of group %d satisfies [%s] but MapShards consults for %s only %s",
+				row.mst, row.t, row.tags, row.sid, row.gid, text, row.mst, ans))
+			break
+		}
+	}
+}
